@@ -356,6 +356,11 @@ def _r3(repo: Repo, L: Ledger):
                 tgt = repo.resolve_dotted(m, dotted(v.func) or "")
                 if isinstance(tgt, Class):
                     L.fail("R3", f"{m.name}.{name}", f"module-level instance of {tgt.name} shared by all invocations in the process", m.relpath)
+                # stateful standard-library objects (streams carry a position and content, deques/bytearrays content)
+                if (dotted(v.func) or "").split(".")[-1] in ("BytesIO", "StringIO", "bytearray", "deque", "Counter", "Random"):
+                    users = [f.short for f in repo.functions.values() if f.module is m and any(isinstance(x, ast.Name) and x.id == name for x in walk_shallow(f.node))]
+                    if users:
+                        L.fail("R3", f"{m.name}.{name}", f"module-level {norm(v)[:30]} is used by {users[:2]}: one stateful object shared by every invocation in the process — what an earlier (possibly failed) call left in it becomes part of the next call's result", m.relpath, witness={"history": "a call that raises half way, then a call on good input"})
     for c in repo.classes.values():
         for name, v in c.attrs.items():
             if isinstance(v, ast.Dict | ast.List | ast.Set):
